@@ -3,6 +3,7 @@ package vh
 import (
 	"bufio"
 	"bytes"
+	"context"
 	"encoding/json"
 	"flag"
 	"fmt"
@@ -30,6 +31,7 @@ type ProxyScenario struct {
 	ReplyMeta string `json:"replymeta"`
 	Body      string `json:"body"`
 	Failure   string `json:"failure"`
+	Earlier   string `json:"earlier"` // what happened earlier on the proxy's forwarder session (none | deadlinemsg | agedoff)
 	Expect    string `json:"expect"`
 	Conc      bool   `json:"conc"`
 }
@@ -192,7 +194,7 @@ func metaMap(cmd erpc.CallCmd) string {
 
 func runProxy(rec *Rec, w *histWorld, sc *ProxyScenario, rnd *rand.Rand) {
 	rec.SetTrace(sc.ID, map[string]interface{}{"mode": "proxy", "kind": sc.Kind, "method": sc.Method, "codec": sc.Codec, "reqmeta": sc.ReqMeta,
-		"replymeta": sc.ReplyMeta, "body": sc.Body, "failure": sc.Failure, "expect": sc.Expect, "conc": sc.Conc})
+		"replymeta": sc.ReplyMeta, "body": sc.Body, "failure": sc.Failure, "earlier": sc.Earlier, "expect": sc.Expect, "conc": sc.Conc})
 	w.ensureFwd()
 	if sc.Conc {
 		w.mu.Lock()
@@ -390,6 +392,13 @@ func runProxy(rec *Rec, w *histWorld, sc *ProxyScenario, rnd *rand.Rand) {
 		px.metas, px.realip = nil, nil
 		px.mu.Unlock()
 	}
+	if sc.Earlier != "" && sc.Earlier != "none" {
+		// the forwarder session has a past; what the backend saw of it is not part of the observed exchange
+		pxEarlier(rec, w, sc)
+		px.mu.Lock()
+		px.metas, px.realip = nil, nil
+		px.mu.Unlock()
+	}
 	d := do(w.direct, tagD)
 	px.mu.Lock()
 	dMetas, dReal := append([]string(nil), px.metas...), append([]string(nil), px.realip...)
@@ -430,6 +439,43 @@ func runProxy(rec *Rec, w *histWorld, sc *ProxyScenario, rnd *rand.Rand) {
 		"realipok", realipok, "reqmetaok", reqmetaok, "dstat", d.stat, "pstat", p.stat, "dmeta", clipS(d.meta), "pmeta", clipS(p.meta),
 		"dbody", clipS(d.body), "pbody", clipS(p.body), "dreq", strings.Join(dMetas, "|"), "preq", strings.Join(pMetas, "|"), "preal", strings.Join(pReal, "|"))
 	_ = atomic.LoadInt64
+}
+
+// pxEarlier is the preparation step of the scenarios with a past on the proxy's forwarder (backend) session: an exchange
+// of the proxy's own with the backend whose context carried a deadline -- given by the caller of that exchange
+// ("deadlinemsg", a health probe with a timeout) or by the session's context age, which is switched off again afterwards
+// ("agedoff") -- and then the passing of that deadline. The forwarder's connection honours write deadlines like a real
+// one (vh/conn.go): a deadline left armed on it makes every later write fail. The exchange is the driver's own; it is
+// not compared with anything, only reported.
+func pxEarlier(rec *Rec, w *histWorld, sc *ProxyScenario) {
+	w.mu.Lock()
+	fs := w.fwd
+	w.mu.Unlock()
+	const span = 5 * time.Millisecond
+	settings := []erpc.MessageSetting{erpc.WithBodyCodec('j')}
+	switch sc.Earlier {
+	case "deadlinemsg":
+		ctx, cancel := context.WithTimeout(context.Background(), span)
+		defer cancel()
+		settings = append(settings, erpc.WithContext(ctx))
+	case "agedoff":
+		// (the setter is on the PreSession view of the session, which a dial / accept hook of the proxy may have kept)
+		fs.(erpc.PreSession).SetContextAge(span)
+	}
+	v := "hang"
+	done := make(chan erpc.CallCmd, 1)
+	go func() { done <- fs.Call("/px/echo", &Arg{Tag: sc.ID + ".e", Pad: "RM0pre"}, new(Res), settings...) }()
+	select {
+	case cmd := <-done:
+		v = statStr(cmd.Status())
+	case <-time.After(3 * time.Second):
+	}
+	if sc.Earlier == "agedoff" {
+		fs.(erpc.PreSession).SetContextAge(0)
+	}
+	// whatever deadline that exchange was written under (set before the call returned) has passed after this
+	time.Sleep(span + 2*time.Millisecond)
+	rec.Emit("ProxyPre", "earlier", sc.Earlier, "v", v, "healthy", fs.Health())
 }
 
 func clipS(s string) string {
